@@ -7,6 +7,9 @@
 #   CB_PHC=1         : the daemon is also given --phc-ref-id PHC0 --phc-interface <a name that resolves, inside the
 #                      private /run, to a fake uevent file with a PCI_SLOT_NAME>: the PHC options must not
 #                      change the published rate
+#   CB_LINK=1        : /run/clockbound/shm is a symbolic link to the real segment file (/run/real/shm, with CB_PRIOR_PPB a live
+#                      segment): the daemon must publish THROUGH the link (the file attached clients have mapped); if the link is gone
+#                      or the linked file was not the one updated the output is "relinked"
 # output: "ok <ppb>" | "refused <exit code>" | "rejected" (clap usage error, exit 2) | "timeout"
 BIN="$1"; shift
 exec unshare -m sh -c '
@@ -25,6 +28,11 @@ open("/run/clockbound/shm", "wb").write(hdr + rec + b"\0" * (72 - 16 - len(rec))
 PY
   prior_gen=10
 fi
+if [ -n "$CB_LINK" ]; then
+  mkdir -p /run/clockbound /run/real
+  if [ -f /run/clockbound/shm ]; then mv /run/clockbound/shm /run/real/shm; fi
+  ln -s /run/real/shm /run/clockbound/shm
+fi
 if [ -n "$CB_PHC" ]; then
   mkdir -p /run/fakeif/device
   printf "DRIVER=ena\nPCI_SLOT_NAME=0000:00:05.0\n" > /run/fakeif/device/uevent
@@ -39,6 +47,10 @@ while [ $i -lt 100 ]; do
     if [ "$gen" != "0" ] && [ "$gen" != "$prior_gen" ] && [ $((gen % 2)) -eq 0 ]; then
       ppb=$(od -An -tu4 -j56 -N4 /run/clockbound/shm | tr -d " ")
       kill $pid 2>/dev/null; wait $pid 2>/dev/null
+      if [ -n "$CB_LINK" ]; then
+        rgen=$(od -An -tu2 -j14 -N2 /run/real/shm 2>/dev/null | tr -d " ")
+        if [ ! -L /run/clockbound/shm ] || [ "$rgen" != "$gen" ]; then echo "relinked"; exit 0; fi
+      fi
       echo "ok $ppb"; exit 0
     fi
   fi
